@@ -244,13 +244,12 @@ section, the graphs) with the fuel-based model `SM.ngSearch .simple fuel` of `st
 for the five other strategies it is `ServerAdf.solveAdf`, the function the driver runs
 (`solve_model_agrees`). `SrvA.Denotes a n fms`: the stored ADF `a` has a well-formed table and one
 valid handle per statement with the Boolean function of its condition. `SrvA.storedI3`: the stored
-vectors (`AcAndGraph.ac`) read as three-valued interpretations. PARTIAL in one respect only:
-`ServerAdf.solveAdf` runs `StableNogood` through `NgModel.ngAll`, whose loop is a `partial def` —
-opaque to the kernel — so the statement about `solveAdf` itself covers five strategies
-(`stored_answers_exact_driver_model_partial`) and the sixth is proved for the fuel-based model of the
-same loop (C05's `SM.ngSearch`), under the hypothesis "the search halted within the bound" (as in
-C15), which holds for every large bound (`stored_answers_exact_every_large_bound`); that the two
-models of the loop give the same vectors is replayed by evaluation below. -/
+vectors (`AcAndGraph.ac`) read as three-valued interpretations. `ServerAdf.solveAdf` runs
+`StableNogood` through the same fuel-based search with the fixed bound 10^6
+(`solve_model_is_bound_instance`: it IS `SrvA.solveAdfF 1000000`), so the statement about the very
+function the driver runs covers all six strategies (`stored_answers_exact_driver_model`), the sixth
+under the hypothesis "the search halted within the bound" (as in C15), which holds for every large
+bound (`stored_answers_exact_every_large_bound`). -/
 
 /-- the storage round trip works for ANY well-formed stored table (also one adopted from biodivine's
 dump): `Bdd::from(Vec<BddNode>)` gives a well-formed store with exactly that table -/
@@ -314,10 +313,8 @@ theorem stored_answers_exact_every_large_bound (a : SAdf) (n : Nat) (fms : List 
         (SrvA.storedI3 res).Perm (Cli.specSection n (CliF.tablesOf n fms) (SrvA.secOf s)) :=
   SrvA.stored_answers_exact_every_large_bound a n fms s h
 
-/-- **the model the driver runs**, the five strategies without nogood search, any stored table: no
-hypothesis about bounds. Missing for `StableNogood`: `ServerAdf.solveAdf` calls `NgModel.ngAll`
-(`partial def`); with `SM.ngSearch .simple fuel` in that arm `solveAdf` would be `SrvA.solveAdfF fuel`
-and `stored_answers_exact_any_table` would apply verbatim -/
+/-- the five strategies without nogood search, any stored table: no hypothesis about bounds at all
+(the name is historical: the sixth strategy is covered by `stored_answers_exact_driver_model`) -/
 theorem stored_answers_exact_driver_model_partial (a : SAdf) (n : Nat) (fms : List Fm) (s : Strategy)
     (h : SrvA.Denotes a n fms) (hs : s ≠ .stableNogood) :
     ∃ res, solveAdf a s = .ok res ∧
